@@ -234,3 +234,83 @@ func (P *Prog) primCallsVia(fn *ssa.Function, isPrim func(c *ssa.Call) bool) []p
 func isAuthorizePrim(c *ssa.Call) bool {
 	return calleeName(&c.Call) == "(*hotline.ClientConn).Authorize" && len(c.Call.Args) == 2
 }
+
+// ---------------------------------------------------------------------------------------------
+// helper transparency for site-finding rules: a call made by a function directly, or inside a repo helper it
+// calls statically (extract-function refactorings), with the helper's parameters mapped back to the site.
+
+type deepCall struct {
+	call  ssa.CallInstruction   // the call itself (possibly inside a helper)
+	fn    *ssa.Function         // the function holding it
+	site  ssa.CallInstruction   // the instruction of the root function that stands for it (== call when direct)
+	chain []ssa.CallInstruction // call sites from the root down to fn (empty when direct)
+}
+
+// up maps a value of dc.fn to the root function: identity for a direct call or a constant, the call-site argument
+// for a parameter of the helper; nil when the value is computed inside the helper.
+func (dc deepCall) up(v ssa.Value) ssa.Value {
+	for i := len(dc.chain) - 1; i >= 0; i-- {
+		v = stripConv(v)
+		if _, isConst := v.(*ssa.Const); isConst {
+			return v
+		}
+		p, ok := v.(*ssa.Parameter)
+		if !ok {
+			return nil
+		}
+		idx := -1
+		for k, q := range p.Parent().Params {
+			if q == p {
+				idx = k
+			}
+		}
+		args := dc.chain[i].Common().Args
+		if idx < 0 || idx >= len(args) {
+			return nil
+		}
+		v = args[idx]
+	}
+	return v
+}
+
+func (P *Prog) deepCalls(root *ssa.Function, depth int) []deepCall {
+	var out []deepCall
+	seen := map[*ssa.Function]bool{root: true}
+	var walk func(fn *ssa.Function, chain []ssa.CallInstruction)
+	walk = func(fn *ssa.Function, chain []ssa.CallInstruction) {
+		for _, ci := range callsIn(fn) {
+			site := ci
+			if len(chain) > 0 {
+				site = chain[0]
+			}
+			out = append(out, deepCall{call: ci, fn: fn, site: site, chain: append([]ssa.CallInstruction(nil), chain...)})
+			if len(chain) >= depth {
+				continue
+			}
+			if _, isCall := ci.(*ssa.Call); !isCall {
+				continue
+			}
+			h, ok := ci.Common().Value.(*ssa.Function)
+			if !ok || h.Blocks == nil || !P.isRepoPkg(pkgOf(h)) || seen[h] || h.Parent() != nil {
+				continue
+			}
+			seen[h] = true
+			walk(h, append(append([]ssa.CallInstruction(nil), chain...), ci))
+			delete(seen, h)
+		}
+	}
+	walk(root, nil)
+	return out
+}
+
+// before: a is executed before b on every path to b — by dominance of the sites in the root function, or, for two
+// calls inside the same helper invocation, by dominance inside the helper.
+func before(a, b deepCall) bool {
+	if a.site != b.site {
+		return instrDominates(a.site.(ssa.Instruction), b.site.(ssa.Instruction))
+	}
+	if a.fn == b.fn {
+		return instrDominates(a.call.(ssa.Instruction), b.call.(ssa.Instruction))
+	}
+	return false
+}
